@@ -337,3 +337,20 @@ pub fn f_step_rev_range(x: u8, y: u8) -> u32 { let mut s = 0u32; for i in (0..8u
 pub fn f_any_all_range(x: u8, y: u8) -> u32 { ((0..8).any(|i| (x >> i) & 3 == 3) as u32) | ((0..8).all(|i| (y >> i) & 1 == 0 || i < 4) as u32) << 1 | ((0..8u32).filter(|i| (x >> i) & 1 == 1).count() as u32) << 2 | ((0..8u8).position(|i| (y >> i) & 1 == 1).map_or(15, |p| p as u32)) << 8 | ((0..8u8).rev().find(|i| (y >> i) & 1 == 1).map_or(15, |p| p as u32)) << 12 }
 pub fn f_last_max_sum(x: u8, y: u8) -> u32 { let a = [x, y, x ^ y]; a.iter().max().map_or(0, |v| *v as u32) + a.iter().min().map_or(0, |v| *v as u32) * 256 + a.iter().map(|v| *v as u32).product::<u32>() % 251 * 65536 }
 pub fn u_array_search(x: u8, y: u8) -> u32 { ([Key::A, Key::Up].into_iter().any(|k| k as u8 == x) as u32) | ([x, y, 3].into_iter().all(|v| v > 2) as u32) << 1 | ([1u8, 2, 30].into_iter().position(|v| v == x & 31).map_or(7, |i| i as u32)) << 2 | ([x, y].into_iter().find(|v| v & 1 == 1).map_or(0, |v| v as u32)) << 8 | ([x, y].into_iter().find_map(|v| v.checked_sub(200)).map_or(0, |v| v as u32)) << 16 }
+
+// ---- seventh batch: drop glue (order, owners, suppression)
+use core::cell::Cell;
+struct G<'a>(&'a Cell<u32>, u32);
+impl<'a> Drop for G<'a> { fn drop(&mut self) { self.0.set(self.0.get().wrapping_mul(10).wrapping_add(self.1)); } }
+struct Pair<'a> { a: G<'a>, b: G<'a> }
+struct Outer<'a> { tag: u32, inner: Pair<'a>, log: &'a Cell<u32> }
+impl<'a> Drop for Outer<'a> { fn drop(&mut self) { self.log.set(self.log.get().wrapping_mul(10).wrapping_add(self.tag)); } }
+fn consume<T>(x: T) -> u32 { let _y = x; 0 }
+pub fn g_order(x: u8, _y: u8) -> u32 { let c = Cell::new(0); { let _a = G(&c, 1); let _b = G(&c, 2); if x & 1 == 0 { let _c = G(&c, 3); } } c.get() }
+pub fn g_struct_fields(x: u8, _y: u8) -> u32 { let c = Cell::new(0); { let o = Outer { tag: 7, inner: Pair { a: G(&c, 1), b: G(&c, 2) }, log: &c }; if x > 100 { drop(o); c.set(c.get() + 5); } } c.get() }
+pub fn g_owners(x: u8, y: u8) -> u32 { let c = Cell::new(0); { let _o = if x & 1 == 0 { Some(G(&c, 1)) } else { None }; let _t = (G(&c, 2), 5u8, G(&c, 3)); let _a = [G(&c, 4), G(&c, 5)]; let g = G(&c, 6); let f = move || g.1 + y as u32; c.set(c.get() + f() % 2); } c.get() }
+pub fn g_suppressed(x: u8, _y: u8) -> u32 { let c = Cell::new(0); { let _m = core::mem::ManuallyDrop::new(G(&c, 1)); let f = G(&c, 2); if x & 1 == 0 { core::mem::forget(f); } let _k = G(&c, 3); } c.get() }
+pub fn g_generic(x: u8, _y: u8) -> u32 { let c = Cell::new(0); consume(G(&c, 4)); consume((G(&c, 1), x)); consume([G(&c, 2)]); let r = consume(Some(G(&c, 3))); c.get() + r }
+pub fn g_moved(x: u8, _y: u8) -> u32 { let c = Cell::new(0); { let a = G(&c, 1); let b = G(&c, 2); let keep = if x & 1 == 0 { a } else { b }; c.set(c.get() + 100); let _k2 = keep; } c.get() }
+pub fn g_replace(x: u8, _y: u8) -> u32 { let c = Cell::new(0); { let mut s = Some(G(&c, 1)); if x & 1 == 0 { s = None; } c.set(c.get() + 50); let old = core::mem::replace(&mut s, Some(G(&c, 2))); c.set(c.get() + 1); drop(old); } c.get() }
+pub fn g_early_return(x: u8, _y: u8) -> u32 { fn inner(c: &Cell<u32>, x: u8) -> u32 { let _a = G(c, 1); if x < 50 { return 9; } let _b = G(c, 2); if x < 100 { return 8; } 7 } let c = Cell::new(0); let r = inner(&c, x); c.get() * 10 + r }
